@@ -331,3 +331,108 @@ def job_path_step(tier, seed):
         return {"verdict": "INCONCLUSIVE", "detail": str(e)}
     return run_inclusion("path step printed bare", impl, IDENT_SPEC, "replay_path_step", pat=pat, method=method,
                          samples=["a", "a1", "_a", "1a", "a-b", "a b", "", "a\n", "clé", "a.b", "A_9", "'a'"])
+
+
+# ---------------------------------------------------------------- every check terminates quickly: no repetition whose body can be read as one or as several rounds (C19, C17)
+def _compiled_patterns():
+    """[(module name, attribute, pattern object)]: every compiled pattern the library keeps at module level (and the per-algorithm hash table)"""
+    import importlib
+    out = []
+    for mn in ("stix2.properties", "stix2.utils", "stix2.hashes", "stix2.datastore.filters", "stix2.patterns", "stix2.pattern_visitor",
+               "stix2.equivalence.pattern.transform.specials", "stix2.registration", "stix2.versioning", "stix2.markings.utils"):
+        try:
+            m = importlib.import_module(mn)
+        except ImportError:
+            continue
+        for k, v in sorted(vars(m).items()):
+            if isinstance(v, re.Pattern):
+                out.append((mn, k, v))
+            elif isinstance(v, dict) and v and all(isinstance(x, (str, re.Pattern)) for x in v.values()) and any("^" in (x if isinstance(x, str) else x.pattern) for x in v.values()):
+                for kk, x in sorted(v.items(), key=lambda kv: str(kv[0])):
+                    out.append((mn, "%s[%s]" % (k, kk), re.compile(x) if isinstance(x, str) else x))
+    return out
+
+
+def _ambiguous_loops(pat):
+    """unbounded repetitions whose body itself repeats: for each, a z3 query 'some text is one round of the body and also two or more rounds'"""
+    import sre_constants as C
+    import sre_parse
+    p = sre_parse.parse(pat.pattern, pat.flags)
+    fl = pat.flags | p.state.flags
+    t = re2z3.T(bool(fl & re.I), bool(fl & re.A), bool(fl & re.S))
+    found = []
+
+    def has_repeat(items):
+        for op, av in items:
+            if op in (C.MAX_REPEAT, C.MIN_REPEAT) and av[1] != av[0]:
+                return True
+            if op is C.SUBPATTERN and has_repeat(av[3]):
+                return True
+            if op is C.BRANCH and any(has_repeat(b) for b in av[1]):
+                return True
+        return False
+
+    def walk(items):
+        for op, av in items:
+            if op in (C.MAX_REPEAT, C.MIN_REPEAT):
+                lo, hi, sub = av
+                if hi is C.MAXREPEAT and has_repeat(sub):
+                    found.append(t.plain(sub))
+                walk(sub)
+            elif op is C.SUBPATTERN:
+                walk(av[3])
+            elif op is C.BRANCH:
+                for b in av[1]:
+                    walk(b)
+    walk(list(p))
+    return found
+
+
+def replay_regex_time(module, attr, w, pre=""):
+    """False (reproduced) when matching pre + 26 repetitions of w + a character no pattern accepts does not finish within 5 s in a fresh interpreter"""
+    import subprocess
+    import sys
+    code = ("import importlib,re\nm=importlib.import_module(%r)\nk=%r\n"
+            "v=vars(m)[k.split('[')[0]]\n"
+            "if '[' in k:\n    key=k.split('[')[1][:-1]\n    v=[x for kk,x in v.items() if str(kk)==key][0]\n"
+            "v=re.compile(v) if isinstance(v,str) else v\nv.match(%r+%r*26+'\\x00')\n" % (module, attr, pre, w))
+    try:
+        subprocess.run([sys.executable, "-c", code], timeout=5, check=True, env=dict(__import__("os").environ))
+        return True
+    except subprocess.TimeoutExpired:
+        return False
+
+
+def job_regex_ambiguity(tier, seed):
+    t0 = time.time()
+    re2z3.STATS["queries"] = 0
+    re2z3.STATS["solver_s"] = 0.0
+    smp, cands, npat = [], [], 0
+    for mn, attr, pat in _compiled_patterns():
+        npat += 1
+        try:
+            loops = _ambiguous_loops(pat)
+        except NotImplementedError as e:
+            smp.append({"check": "%s.%s" % (mn, attr), "result": "skipped", "why": str(e)[:80]})
+            continue
+        for body in loops:
+            r, w = re2z3.witness(lambda s: [z3.InRe(s, body), z3.InRe(s, z3.Concat(body, z3.Plus(body))), z3.Length(s) >= 1, z3.Length(s) <= 12], timeout_ms=30000)
+            w = re2z3.unescape(w) if w is not None else None
+            smp.append({"check": "%s.%s" % (mn, attr), "query": "one round = several rounds", "result": r, "witness": w})
+            if r == "sat":
+                # a text the whole pattern accepts in which w occurs twice in a row: what precedes it leads the matcher into the repetition
+                full = re2z3.match_lang(pat)
+                r2, m = re2z3.witness(lambda s: [z3.InRe(s, full), z3.Contains(s, z3.StringVal(w + w)), z3.Length(s) <= 40], timeout_ms=30000)
+                m = re2z3.unescape(m) if m is not None else ""
+                pre = m[:m.index(w + w)] if r2 == "sat" and (w + w) in m else ""
+                cands.append({"call": "replay_regex_time(%r, %r, %r, %r)" % (mn, attr, w, pre),
+                              "desc": "%s.%s: repetition body matches %r as one round and as several" % (mn, attr, w)})
+            elif r != "unsat":
+                return {"verdict": "INCONCLUSIVE", "detail": "%s.%s: solver returned %s" % (mn, attr, r), "paths": npat, "queries": re2z3.STATS["queries"]}
+    res = {"paths": npat, "decisions": len(smp), "queries": re2z3.STATS["queries"], "solver_s": round(re2z3.STATS["solver_s"], 3), "validated": 0, "reached": npat > 5,
+           "samples": smp, "extra": {"wall_s": round(time.time() - t0, 2), "patterns": npat}}
+    if cands:
+        res.update(verdict="CANDIDATE", candidates=cands, detail="; ".join(c["desc"] for c in cands))
+    else:
+        res.update(verdict="HOLDS", detail="%d compiled patterns; no nested repetition is ambiguous" % npat)
+    return res
